@@ -43,13 +43,21 @@ RULE = ("Wallets: single-key P2PKH / P2WPKH / P2SH-P2WPKH and m-of-n P2SH / P2WS
         "left out edited in place next to a second object, two extractions from one PSBT; empty input / output lists, "
         "both UTXO forms in one map, global xpubs colliding after version normalisation, depth-0 xpubs with parent "
         "data, all-zero / all-ff fingerprints, indices and chain codes, declared lengths the parser does not need and "
-        "over-long compact sizes.")
+        "over-long compact sizes.  Modelled and compared on every run since the second deepening pass: "
+        "sign_with_private_keys (keys in order / reversed / foreign / repeated / none / already signed) on the PSBT of every "
+        "workflow, validate() as a state transformer of the unsigned transaction (updated, signed, finalised, finalised with "
+        "a final scriptSig / witness that does not verify), helper.base64_encode / base64_decode (every length class, "
+        "truncation at every offset, inserted junk / padding / non-ASCII characters, data after the padding, str and bytes "
+        "arguments) and PSBT.parse_base64 on the text of workflow PSBTs, PSBTIn/PSBTOut/PSBT.update on single maps (six script "
+        "types x origin of the UTXO x lookups given x scripts already present, right and stale; foreign and unsupported "
+        "scriptPubKeys; an existing RedeemScript the lookup lacks), sighash-type values of 0..9 bytes through parse and "
+        "serialize, PSBT.sign(hd_priv) with every wallet root, a root nobody names and a derivation filed under another key's path.")
 TRUSTED = ["hashlib / hmac (sha256, ripemd160, sha512) — hash functions are universally quantified in the theorems",
            "oracles of the model, served by the implementation's own Tx methods at run time: Tx.sig_hash_legacy, "
            "Tx.sig_hash_bip143 (C05) and Tx.verify_input (C06/C07); ECDSA verification, SEC/DER parsing and "
            "BIP32 public derivation are the extracted Model/Pecc.v on secp256k1",
            "PrivateKey.sign and S256Point.verify are memoised by the harness (pure functions; same results)",
-           "modelled, not verified: object plumbing of PSBT.create / update / sign (tied by the workflow cases)"]
+           "signature producers of the Signer model: Tx.get_sig_segwit / get_sig_legacy of the implementation (table per key and input); PSBT.sign_with_private_keys, PSBTIn/PSBTOut/PSBT.update, validate() as a state transformer and the base64 layer ARE modelled and compared on every run; PSBT.create and PSBT.sign(hd_priv) stay tied by the workflow cases only"]
 ASSUMPTIONS = ["Python dicts are modelled as key-sorted association lists: insertion order is not modelled; it is "
                "observable only in PSBT.validate's `for hd_pub in hd_pubs.values(): ... break` when two global "
                "xpubs are both ancestors of one key and disagree",
@@ -58,7 +66,7 @@ ASSUMPTIONS = ["Python dicts are modelled as key-sorted association lists: inser
 BUDGET_S = {"quick": 3000, "thorough": 7200}   # wall clock incl. waiting for the shared coq build lock
 # the extraction self-check re-evaluates sampled cases with vm_compute inside Coq: whole-PSBT parse / validate run
 # ECDSA verification and BIP32 derivation on secp256k1 there, which does not finish within the time limit
-VM_SKIP = {"parse", "validate"}
+VM_SKIP = {"parse", "validate", "validate_state", "parse_base64"}
 
 NETS = [None, "mainnet", "testnet"]
 
@@ -690,7 +698,10 @@ def p_reserialize(b):
         p = reparse(b)
     except Exception:  # noqa
         return None            # not a PSBT the library accepts: nothing to re-serialise
-    s1 = p.serialize()
+    try:
+        s1 = p.serialize()
+    except Exception as e:  # noqa
+        return f"a PSBT that parse() accepted cannot be serialised: {type(e).__name__}: {e}"
     try:
         p2 = reparse(s1)
     except Exception as e:  # noqa
@@ -3215,6 +3226,20 @@ def stage_cases(ctx, kind_i, m, n, n_inputs, flags):
     for b, o in zip(signed, objs):
         yield parse_case(b)
         yield ("corr", "serialize", [un_psbt(o)])
+    # the Signer model: keys in order, reversed with a foreign and a repeated key, no key, a key that signed already
+    register_privs(w)
+    secs = list(w.secs[: 1 if single else n])
+    ctx.label("signer/keys-in-order")
+    yield sign_case(reparse(base), secs)
+    ctx.label("signer/reversed+foreign+repeated")
+    yield sign_case(reparse(base), secs[::-1] + [key(40).point.sec()] + secs[:1])
+    ctx.label("signer/no-key")
+    yield sign_case(reparse(base), [])
+    ctx.label("signer/already-signed")
+    yield sign_case(reparse(signed[0]), secs)
+    ctx.label("validate-state/updated")
+    yield state_case(reparse(base))
+    yield from sign_hd_cases(ctx, w, base)
     if len(objs) >= 2:
         yield ("corr", "combine", [un_psbt(objs[0]), un_psbt(objs[1])])
         yield ("corr", "combine", [un_psbt(objs[1]), un_psbt(objs[0])])
@@ -3236,10 +3261,425 @@ def stage_cases(ctx, kind_i, m, n, n_inputs, flags):
     yield ("corr", "assemble_tx", [un_psbt(full)])
     yield ("corr", "validate", [un_psbt(fin), oracle_table(fin)])
     yield parse_case(fin.serialize())
+    # validate() as a state transformer: signed, finalised, and finalised with a final scriptSig / witness that does
+    # not verify (the refusal leaves it in the unsigned transaction)
+    ctx.label("validate-state/signed")
+    yield state_case(full)
+    ctx.label("validate-state/finalised")
+    yield state_case(fin)
+    v = un_psbt(fin)
+    v[1][0][7] = [[[81], []]]
+    ctx.label("validate-state/bad-final-scriptsig")
+    yield ("corr", "validate_state", [v, oracle_table(mk_psbt(v))])
+    v = un_psbt(fin)
+    if v[1][-1][8]:
+        v[1][-1][8] = [[b"\x01"]]
+        ctx.label("validate-state/bad-final-witness")
+        yield ("corr", "validate_state", [v, oracle_table(mk_psbt(v))])
     # a different unsigned transaction cannot be combined
     other = build_psbt(w, n_inputs, salt=255 - kind_i)
     yield ("corr", "combine", [un_psbt(reparse(base)), un_psbt(other)])
     ctx.label(f"stages/{kind}")
+
+
+# ---------------------------------------------------------------- deepening pass: Signer, validate-state, base64
+from buidl.helper import base64_decode, base64_encode
+
+_PRIV_BY_SEC = {}
+
+
+def priv_for(sec):
+    """private keys of the harness wallets by compressed SEC (plain keys 0..63 and every HD wallet built so far)"""
+    if b"plain" not in _PRIV_BY_SEC:
+        _PRIV_BY_SEC[b"plain"] = None
+        for j in range(64):
+            _PRIV_BY_SEC[key(j).point.sec()] = key(j)
+    return _PRIV_BY_SEC[sec]
+
+
+def register_privs(w):
+    for k in w.privs:
+        _PRIV_BY_SEC[k.point.sec()] = k
+
+
+def sign_table(p, secs):
+    """what Tx.get_sig_segwit / get_sig_legacy return for every (key, input): the signature oracle of the model"""
+    tx = p.tx_obj
+    tbl = []
+    for sec in dict.fromkeys(secs):
+        priv = priv_for(sec)
+        rows = []
+        for i, pin in enumerate(p.psbt_ins):
+            if i >= len(tx.tx_ins):
+                break
+            rows.append([_try(lambda: tx.get_sig_segwit(i, priv, pin.redeem_script, pin.witness_script)),
+                         _try(lambda: tx.get_sig_legacy(i, priv, pin.redeem_script))])
+        tbl.append([sec, rows])
+    return tbl
+
+
+def i_sign_keys(v, secs, tbl):
+    p = mk_psbt(v)
+    ok = p.sign_with_private_keys([priv_for(s) for s in secs])
+    return [un_psbt(p), 1 if ok else 0]
+
+
+def i_validate_state(v, tbl):
+    p = mk_psbt(v)
+    try:
+        ok = 1 if p.validate() else 0
+    except Exception:  # noqa
+        ok = 0
+    for ti in p.tx_obj.tx_ins:          # a refused final witness of None is left on the TxIn: reported as no items
+        if ti.witness is None:
+            ti.witness = Witness()
+    return [ok, un_tx(p.tx_obj)]
+
+
+def i_b64_decode(s, is_str):
+    return base64_decode(s.decode("latin-1") if is_str else s)
+
+
+def i_parse_base64(s, is_str, tbl):
+    p = PSBT.parse_base64(s.decode("latin-1") if is_str else s)
+    return [un_psbt(p), net_code(p.network)]
+
+
+NEW_IMPL = {
+    "sign_keys": quiet(i_sign_keys),
+    "validate_state": quiet(i_validate_state),
+    "b64_encode": quiet(lambda b: base64_encode(b)),
+    "b64_decode": quiet(i_b64_decode),
+    "parse_base64": quiet(i_parse_base64),
+}
+
+
+def sign_case(p, secs):
+    return ("corr", "sign_keys", [un_psbt(p), list(secs), sign_table(p, secs)])
+
+
+def state_case(p):
+    return ("corr", "validate_state", [un_psbt(p), oracle_table(p)])
+
+
+def b64_text_cases(ctx):
+    """helper.base64_encode / base64_decode: every length class, canonical text, and the lenient decoder's classes:
+    junk characters, missing / surplus / misplaced padding, data after the padding, non-ASCII in str and bytes"""
+    r = ctx.rng
+    for n in list(range(0, 8)) + [31, 32, 33, 57, 58]:
+        b = ctx.rbytes(n)
+        ctx.label("base64/encode")
+        yield ("corr", "b64_encode", [b])
+        t = base64.b64encode(b)
+        for is_str in (0, 1):
+            ctx.label("base64/decode-canonical")
+            yield ("corr", "b64_decode", [t, is_str])
+        if t:
+            for k in range(len(t) + 1):                     # truncation at every offset
+                ctx.label("base64/decode-truncated")
+                yield ("corr", "b64_decode", [t[:k], k % 2])
+            for _ in range(ctx.n(4, 30)):
+                k = r.randrange(len(t) + 1)
+                junk = bytes([r.choice([0x20, 0x0a, 0x21, 0x3d, 0x2d, 0x5f, 0x80, 0xff, 0x00, 0x2b, 0x2f, 0x41, 0x7a])])
+                ctx.label("base64/decode-inserted-char")
+                yield ("corr", "b64_decode", [t[:k] + junk + t[k:], r.randrange(2)])
+            ctx.label("base64/decode-data-after-padding")
+            yield ("corr", "b64_decode", [t + b"QUJD", 0])
+            yield ("corr", "b64_decode", [t + b"=", 1])
+            yield ("corr", "b64_decode", [t.rstrip(b"="), 0])
+            yield ("corr", "b64_decode", [b"=" + t, 1])
+    for t in (b"", b"=", b"==", b"Q", b"QQ", b"QQ=", b"QQ==", b"QQ===", b"Q=Q=", b"QQ=Q", b"QQ=\n=", b"QR==", b"=QR===",
+              b"QQ==QUJD", b"Q!Q\n= =", b"QUJDR", b"QUJDR===", b"\xff\xfeQUJD", b"QUJD\xe9", b"-_-_", b"QU\x00JD"):
+        for is_str in (0, 1):
+            ctx.label("base64/decode-handmade")
+            yield ("corr", "b64_decode", [t, is_str])
+    for _ in range(ctx.n(40, 600)):
+        n = r.randrange(0, 14)
+        alphabet = b"ABab01+/==\n -_\x80"
+        ctx.label("base64/decode-random-text")
+        yield ("corr", "b64_decode", [bytes(r.choice(alphabet) for _ in range(n)), r.randrange(2)])
+
+
+def parse_base64_cases(ctx, vectors):
+    """PSBT.parse_base64 on the text of valid PSBTs: canonical, with line breaks, with data after the padding, with the
+    padding cut off, as str and as bytes"""
+    for k, b in enumerate(vectors):
+        t = base64.b64encode(b)
+        tbl = table_for_stream(b)
+        ctx.label("parse_base64/canonical")
+        yield ("corr", "parse_base64", [t, k % 2, tbl])
+        wrapped = b"\n".join(t[i:i + 64] for i in range(0, len(t), 64))
+        ctx.label("parse_base64/line-breaks")
+        yield ("corr", "parse_base64", [wrapped, (k + 1) % 2, tbl])
+        if t.endswith(b"="):
+            ctx.label("parse_base64/padding-cut")
+            yield ("corr", "parse_base64", [t.rstrip(b"="), k % 2, []])
+            ctx.label("parse_base64/data-after-padding")
+            yield ("corr", "parse_base64", [t + b"AAAA", k % 2, tbl])
+        ctx.label("parse_base64/truncated-text")
+        cut = t[: (len(t) // 2) & ~3]
+        yield ("corr", "parse_base64", [cut, k % 2, table_for_stream(base64.b64decode(cut))])
+        ctx.label("parse_base64/non-ascii")
+        yield ("corr", "parse_base64", [t[:8] + b"\xe9" + t[8:], 1, []])
+        yield ("corr", "parse_base64", [t[:8] + b"\xe9" + t[8:], 0, tbl])
+
+
+# ---- Updater: PSBTIn.update / PSBTOut.update / PSBT.update against the model
+
+def mk_pk(pk):
+    return {k: NP(mk_named(sec, path)) for k, (sec, path) in pk}
+
+
+def i_in_update(v, ti, txl, pk, rl, wl):
+    p = mk_in(v, mk_txin(ti))
+    p.update({k: mk_tx(t) for k, t in txl}, mk_pk(pk), {k: mk_script(s, RedeemScript) for k, s in rl},
+             {k: mk_script(s, WitnessScript) for k, s in wl})
+    return un_in(p)
+
+
+def i_out_update(v, to, pk, rl, wl):
+    p = mk_out(v, mk_txout(to))
+    p.update(mk_pk(pk), {k: mk_script(s, RedeemScript) for k, s in rl}, {k: mk_script(s, WitnessScript) for k, s in wl})
+    return un_out(p)
+
+
+def i_update(v, txl, pk, rl, wl):
+    p = mk_psbt(v)
+    p.update({k: mk_tx(t) for k, t in txl}, mk_pk(pk), {k: mk_script(s, RedeemScript) for k, s in rl},
+             {k: mk_script(s, WitnessScript) for k, s in wl})
+    return un_psbt(p)
+
+
+NEW_IMPL.update({"in_update": quiet(i_in_update), "out_update": quiet(i_out_update), "update": quiet(i_update)})
+
+
+def enc_lookups(pk, rl, wl):
+    return ([[k, [pk[k].sec(), pk[k].point.raw_path]] for k in sorted(pk)],
+            [[k, un_script(rl[k])] for k in sorted(rl)], [[k, un_script(wl[k])] for k in sorted(wl)])
+
+
+def update_cases(ctx):
+    """the Updater on single maps: every own script type x where the UTXO comes from (tx lookup / non-witness UTXO in
+    the map / witness UTXO in the map / nowhere) x which lookups are given, scripts already present (right and stale),
+    foreign and unsupported scriptPubKeys, an outpoint index beyond the funding transaction; outputs incl. the
+    RedeemScript that a lookup without it erases"""
+    ws = own_wallets()
+    owned = [ws[k] for k in KINDS]
+    for ki, w in enumerate(owned):
+        f = funding_tx(90 + ki, 0, w.spk)
+        ti = un_txin(TxIn(f.hash(), 1))
+        txl = [[f.hash(), un_tx(f)]]
+        for pubs, redeem, witness in ((1, 1, 1), (0, 1, 1), (1, 0, 1), (1, 1, 0), (0, 0, 0)):
+            pk, rl, wl = enc_lookups(*merged_lookups(owned, pubs, redeem, witness))
+            blank = list(BLANK_IN)
+            with_tx = [[un_tx(f)]] + list(BLANK_IN[1:])
+            with_out = [[], [un_txout(f.tx_outs[1])]] + list(BLANK_IN[2:])
+            for name, v, tl in (("tx-lookup", blank, txl), ("utxo-in-map", with_tx, []), ("witness-utxo-in-map", with_out, []),
+                                ("no-utxo", blank, [])):
+                ctx.label(f"update/in/{w.kind}/{name}")
+                yield ("corr", "in_update", [v, ti, tl, pk, rl, wl])
+            # scripts already in the map: the right ones, and stale ones of another wallet
+            other = owned[(ki + 1) % 6] if ki >= 3 else owned[3 + ki]
+            for rs, wsx in ((w.redeem, w.wscript), (other.redeem, other.wscript)):
+                v = list(blank)
+                v[4], v[5] = opt(rs, un_script), opt(wsx, un_script)
+                ctx.label(f"update/in/{w.kind}/scripts-present")
+                yield ("corr", "in_update", [v, ti, txl, pk, [], []])
+            # an existing derivation under another key, signatures and unknown entries stay
+            v = list(blank)
+            v[2] = [[owned[3].secs[0], b"\x30\x01"]]
+            v[6] = [[owned[4].secs[2], b"\x01\x02\x03\x04" + b"\x00" * 4]]
+            v[9] = [[b"\xfc\x01", b"x"]]
+            ctx.label(f"update/in/{w.kind}/fields-kept")
+            yield ("corr", "in_update", [v, ti, txl, pk, rl, wl])
+        pk, rl, wl = enc_lookups(*merged_lookups(owned))
+        ctx.label("update/in/index-beyond-outputs")
+        yield ("corr", "in_update", [list(BLANK_IN), un_txin(TxIn(f.hash(), 2)), txl, pk, rl, wl])
+        # outputs
+        for pubs, redeem, witness in ((1, 1, 1), (0, 1, 1), (1, 0, 1), (1, 1, 0)):
+            pk2, rl2, wl2 = enc_lookups(*merged_lookups(owned, pubs, redeem, witness))
+            to = un_txout(TxOut(9000, w.spk))
+            ctx.label(f"update/out/{w.kind}")
+            yield ("corr", "out_update", [list(BLANK_OUT), to, pk2, rl2, wl2])
+            v = [opt(w.redeem, un_script), opt(w.wscript, un_script), [[owned[4].secs[1], b"\x05" * 8]], [[b"\x09", b"z"]]]
+            ctx.label(f"update/out/{w.kind}/scripts-present" + ("" if redeem else "+lookup-lacks-redeem"))
+            yield ("corr", "out_update", [v, to, pk2, rl2, wl2])
+        # a stale one-command RedeemScript on a non-p2sh output: commands[1] raises
+        ctx.label("update/out/stale-redeem")
+        yield ("corr", "out_update", [[[un_script(RedeemScript([0]))], [], [], []], un_txout(TxOut(1, w.spk)), pk, rl, wl])
+        yield ("corr", "out_update", [[[un_script(owned[2].redeem)], [], [], []], un_txout(TxOut(1, w.spk)), pk, rl, wl])
+    pk, rl, wl = enc_lookups(*merged_lookups(owned))
+    for k, o in enumerate(foreign_outputs()):
+        f = funding_tx(120, k, o.script_pubkey)
+        ctx.label("update/in/foreign-or-unsupported")
+        yield ("corr", "in_update", [list(BLANK_IN), un_txin(TxIn(f.hash(), 1)), [[f.hash(), un_tx(f)]], pk, rl, wl])
+        ctx.label("update/out/foreign-or-unsupported")
+        yield ("corr", "out_update", [list(BLANK_OUT), un_txout(o), pk, rl, wl])
+    # whole PSBTs: inputs and outputs of all six wallets
+    fs = [funding_tx(140 + ki, ki, w.spk) for ki, w in enumerate(owned)]
+    tx = Tx(2, [TxIn(f.hash(), 1) for f in fs], [TxOut(9000 + i, ow.spk) for i, ow in enumerate(owned)] + foreign_outputs(), 0)
+    tx.network = "mainnet"
+    bare = PSBT.create(tx)
+    txl = sorted([[f.hash(), un_tx(f)] for f in fs])
+    for sel in ((1, 1, 1), (1, 0, 1), (0, 1, 0)):
+        pk, rl, wl = enc_lookups(*merged_lookups(owned, *sel))
+        ctx.label("update/psbt")
+        yield ("corr", "update", [un_psbt(bare), txl, pk, rl, wl])
+        yield ("corr", "update", [un_psbt(bare), txl[:3], pk, rl, wl])
+
+
+def sighash_value_cases(ctx):
+    """PSBT_IN_SIGHASH_TYPE values of 0..8 bytes: parse reads any length, serialize writes four bytes (a loaded value
+    >= 2^32 cannot be serialised: both sides must agree on parse AND on the failing serialize)"""
+    tx = bytes.fromhex("02000000" "01" + "11" * 32 + "00000000" "00" "ffffffff" "00" "00000000")
+
+    def kv_(k, v):
+        return bytes([len(k)]) + k + bytes([len(v)]) + v
+    for val in (b"\x01\x00\x00\x00", b"\x01\x00\x00\x00\x01", b"\x01", b"", b"\x00\x00\x00\x00", b"\x01\x00\x00\x00\x00",
+                b"\xff" * 8, b"\x83\x00\x00\x00"):
+        s = b"psbt\xff" + kv_(b"\x00", tx) + b"\x00" + kv_(b"\x03", val) + b"\x00"
+        ctx.label("sighash-type/value-length-%d" % len(val))
+        yield parse_case(s)
+        try:
+            p = reparse(s)
+        except Exception:  # noqa
+            continue
+        yield ("corr", "serialize", [un_psbt(p)])
+
+
+# ---- PSBT.sign(hd_priv) against the model
+
+_HD_BY_FP = {}
+
+
+def register_hd(root):
+    _HD_BY_FP[root.fingerprint()] = root
+    return root
+
+
+def hd_tables(p, root):
+    """derivation oracle (raw path -> SEC of the private key hd_priv.traverse() gives) and the signature table of the keys
+    so derived"""
+    from vp.sexp import ERR
+    fp = root.fingerprint()
+    dtbl, secs, seen = [], [], set()
+    for pin in p.psbt_ins:
+        for named in pin.named_pubs.values():
+            if named.root_fingerprint == fp and named.raw_path not in seen:
+                seen.add(named.raw_path)
+
+                def f(named=named):
+                    k = root.traverse(named.root_path).private_key
+                    _PRIV_BY_SEC[k.point.sec()] = k
+                    return k.point.sec()
+                r = _try(f)
+                dtbl.append([named.raw_path, r])
+                if r is not ERR:
+                    secs.append(r)
+    dtbl.sort(key=lambda e: e[0])
+    priv_for(key(0).point.sec())
+    return dtbl, sign_table(p, secs)
+
+
+def i_sign_hd(v, fp, dtbl, stbl):
+    p = mk_psbt(v)
+    ok = p.sign(_HD_BY_FP[fp])
+    return [un_psbt(p), 1 if ok else 0]
+
+
+NEW_IMPL["sign_hd"] = quiet(i_sign_hd)
+
+
+def sign_hd_case(p, root):
+    register_hd(root)
+    dtbl, stbl = hd_tables(p, root)
+    return ("corr", "sign_hd", [un_psbt(p), root.fingerprint(), dtbl, stbl])
+
+
+def sign_hd_cases(ctx, w, base):
+    """PSBT.sign(hd_priv) on the updated PSBT of a workflow: every root of an HD wallet, a root nobody names, and a
+    derivation re-filed under another key's path (the signature is stored under the SEC of the DERIVED key)"""
+    stranger = HDPrivateKey(PrivateKey(0x5EED5EED), b"\x42" * 32)
+    ctx.label("signer-hd/stranger-root")
+    yield sign_hd_case(reparse(base), stranger)
+    for j, root in enumerate(w.roots):
+        ctx.label("signer-hd/wallet-root")
+        yield sign_hd_case(reparse(base), root)
+        # the derivation of key j filed with the path of another child of the same account
+        v = un_psbt(reparse(base))
+        changed = False
+        for pin in v[1]:
+            for e in pin[6]:
+                if e[1][:4] == root.fingerprint() and not changed:
+                    e[1] = e[1][:-4] + (7).to_bytes(4, "little")
+                    changed = True
+        if changed:
+            ctx.label("signer-hd/path-of-another-key")
+            yield sign_hd_case(mk_psbt(v), root)
+
+
+
+# ---- regression predicates of the fixes afccdfa / 33b84c2
+
+def p_sighash_length(n, top):
+    """A PSBT_IN_SIGHASH_TYPE value of n bytes (BIP174: a 32-bit little endian unsigned integer).  Whatever PSBT.parse
+    accepts must be serialisable and load back as the same PSBT; exactly four bytes are accepted.  Regression of afccdfa:
+    a longer value was loaded as an integer >= 2^32 and serialize() raised OverflowError."""
+    tx = bytes.fromhex("02000000" "01" + "11" * 32 + "00000000" "00" "ffffffff" "00" "00000000")
+
+    def kv_(k, v):
+        return bytes([len(k)]) + k + bytes([len(v)]) + v
+    val = bytes(([1] + [0] * (n - 2) + [top % 256]) if n >= 2 else [1][:n])
+    s = b"psbt\xff" + kv_(b"\x00", tx) + b"\x00" + kv_(b"\x03", val) + b"\x00"
+    try:
+        p = reparse(s)
+    except Exception as e:  # noqa
+        return None if n != 4 else f"a four-byte sighash type is refused: {type(e).__name__}: {e}"
+    if n != 4:
+        try:
+            p.serialize()
+        except Exception as e:  # noqa
+            return (f"PSBT.parse accepts a sighash type of {n} bytes (value {p.psbt_ins[0].hash_type}) that serialize() "
+                    f"cannot write: {type(e).__name__}: {e}")
+        return f"a sighash type of {n} bytes is accepted (hash_type = {p.psbt_ins[0].hash_type})"
+    b = p.serialize()
+    q = reparse(b)
+    if un_psbt(q) != un_psbt(p) or q.serialize() != b:
+        return "a PSBT with a sighash type does not load back as the same PSBT"
+    if val[3] == 0 and val != b"\x00" * 4 and b != s:
+        return "re-serialisation changed a canonical PSBT with a sighash type"
+    return None
+
+
+def p_out_update_keeps(kind_i, pubs):
+    """PSBTOut.update never removes what the output map already carries: an output of wallet `kind` with its
+    RedeemScript / WitnessScript attached, updated with lookups that lack the scripts (pubs: with / without the pubkey
+    lookup).  Regression of 33b84c2: the RedeemScript of a P2SH output was replaced by the lookup's 'not found'."""
+    ws = own_wallets()
+    w = ws[KINDS[kind_i]]
+    with contextlib.redirect_stdout(io.StringIO()):
+        o = PSBTOut(TxOut(9000, w.spk), redeem_script=w.redeem, witness_script=w.wscript)
+        before = un_out(o)
+        pk, _, _ = merged_lookups([ws[k] for k in KINDS], bool(pubs), False, False)
+        try:
+            o.update(pk, {}, {})
+        except Exception as e:  # noqa
+            return f"update() of an output that carries its scripts raises {type(e).__name__}: {e}"
+    after = un_out(o)
+    for k, name in ((0, "RedeemScript"), (1, "WitnessScript")):
+        if before[k] and after[k] != before[k]:
+            return f"update() with a lookup that lacks it changed / removed the {name} of a {w.kind} output: {after[k]}"
+    if before[3] != after[3]:
+        return "update() changed the unknown entries of an output"
+    try:
+        o.validate()
+    except Exception as e:  # noqa
+        return f"the updated output does not validate: {type(e).__name__}: {e}"
+    return None
+
+
+IMPL.update(NEW_IMPL)
+PROPS.update({"sighash_length": p_sighash_length, "out_update_keeps": p_out_update_keeps})
 
 
 def generate(ctx):
@@ -3249,6 +3689,13 @@ def generate(ctx):
     for kind_i in (0, 1, 4):
         yield ("prop", "segwit_flag", [kind_i, 1 + kind_i % 2])
         yield ("prop", "scriptsig_rejected", [kind_i, kind_i])
+    for n_, top in ((0, 0), (1, 0), (3, 0), (4, 0), (4, 1), (4, 0x80), (5, 1), (5, 0), (8, 0xff), (9, 1)):
+        ctx.label("sighash-type/length-%d" % n_)
+        yield ("prop", "sighash_length", [n_, top])
+    for kind_i in range(6):
+        for pubs in (0, 1):
+            ctx.label("update/out/keeps-attached-scripts")
+            yield ("prop", "out_update_keeps", [kind_i, pubs])
     yield ("prop", "inmem_p2sh_p2wpkh", [1])
     yield ("prop", "inmem_p2sh_p2wpkh", [2])
     yield ("prop", "xpub_order", [0])
@@ -3329,6 +3776,9 @@ def generate(ctx):
     yield from combine_matrix(ctx)
     yield from typed_entry_cases(ctx)
     yield from boundary_cases(ctx)
+    yield from b64_text_cases(ctx)
+    yield from update_cases(ctx)
+    yield from sighash_value_cases(ctx)
     # ---- combine over PSBTs of different workflow stages (bare, updated, signed), every accumulator, every order
     for g in stage_grid(ctx):
         ctx.label(f"stage-orders/{KINDS[g[0]]}")
@@ -3367,6 +3817,8 @@ def generate(ctx):
             if c[1] == "parse":
                 vectors.append(c[2][0])
             yield c
+    # ---- the base64 entry point on PSBTs of every stage
+    yield from parse_base64_cases(ctx, vectors[:: max(1, len(vectors) // ctx.n(6, 30))])
     # ---- PSBTs of every stage read from the middle of a stream
     for k, b in enumerate(vectors[:: max(1, len(vectors) // ctx.n(12, 60))]):
         ctx.label("stream-position")
